@@ -15,6 +15,7 @@ import (
 	"os"
 	"strconv"
 	"strings"
+	"sync"
 	"sync/atomic"
 
 	cloudstorage "cloud.google.com/go/storage"
@@ -468,6 +469,8 @@ func (g *GcsEmu) handleGcsCopy(ctx context.Context, baseUrl HttpBaseUrl, w http.
 }
 
 type uploadData struct {
+	// mu serializes the chunk requests of one resumable session (clients may retry or race them).
+	mu     sync.Mutex
 	Object storage.Object
 	Conds  cloudstorage.Conditions
 	data   []byte
@@ -585,6 +588,8 @@ func (g *GcsEmu) handleGcsNewObjectResume(ctx context.Context, baseUrl HttpBaseU
 	}
 
 	u := found.(*uploadData)
+	u.mu.Lock()
+	defer u.mu.Unlock()
 
 	contents, err := io.ReadAll(r.Body)
 	if err != nil {
